@@ -412,6 +412,15 @@ func globalsCensus(r *Run, scopes []string, format string, discharge ...func(pkg
 					if x.Op == token.ARROW {
 						mark(x.X, x.Pos())
 					}
+					// the address of a package-level variable handed on (slot(&getValue)): whoever holds the
+					// pointer writes the variable
+					if x.Op == token.AND {
+						if v := rootVar(x.X); v != nil && v.Pkg() == pkg.Types && v.Parent() == pkg.Types.Scope() {
+							if _, isStruct := v.Type().Underlying().(*types.Struct); !isStruct || !isSyncType(v.Type()) {
+								mark(x.X, x.Pos())
+							}
+						}
+					}
 				case *ast.CallExpr:
 					if id, ok := ast.Unparen(x.Fun).(*ast.Ident); ok && (id.Name == "delete" || id.Name == "clear") && len(x.Args) > 0 {
 						mark(x.Args[0], x.Pos())
@@ -433,6 +442,37 @@ func globalsCensus(r *Run, scopes []string, format string, discharge ...func(pkg
 				}
 				return true
 			})
+		}
+		// a package-level table of addresses of package-level variables (var slots = []**T{&a, &b}): the
+		// variables are written through the table
+		for _, f := range pkg.Syntax {
+			for _, d := range f.Decls {
+				gd, ok := d.(*ast.GenDecl)
+				if !ok || gd.Tok != token.VAR {
+					continue
+				}
+				for _, sp := range gd.Specs {
+					vs := sp.(*ast.ValueSpec)
+					for _, val := range vs.Values {
+						ast.Inspect(val, func(nd ast.Node) bool {
+							if _, isLit := nd.(*ast.FuncLit); isLit {
+								return false
+							}
+							if ue, ok := nd.(*ast.UnaryExpr); ok && ue.Op == token.AND {
+								if v := rootVar(ue.X); v != nil && v.Pkg() == pkg.Types && v.Parent() == pkg.Types.Scope() && !isSyncType(v.Type()) {
+									g := written[v]
+									if g == nil {
+										g = &gw{obj: v, pos: ue.Pos(), fns: map[string]bool{}}
+										written[v] = g
+									}
+									g.fns["package-level table of addresses"] = true
+								}
+							}
+							return true
+						})
+					}
+				}
+			}
 		}
 		var vars []*types.Var
 		for v := range written {
@@ -561,4 +601,18 @@ func c20ResetFacts(r *Run) {
 			r.bad(key, entry.Pos(), "process-wide variable "+f.varPkg+"."+f.varName+" is no longer reset by "+f.entryFn+", the entry every program run goes through: a host that runs two programs on fresh VMs carries the first program's state into the second")
 		}
 	}
+}
+
+// isSyncType: a mutex, once, wait group or atomic value — taking its address is how it is used, not a
+// write of program state through a pointer.
+func isSyncType(t types.Type) bool {
+	nt := namedOf(t)
+	if nt == nil || nt.Obj().Pkg() == nil {
+		return false
+	}
+	switch nt.Obj().Pkg().Path() {
+	case "sync", "sync/atomic":
+		return true
+	}
+	return false
 }
